@@ -358,6 +358,11 @@ def run(cx):
     inst_receive_walk(cx, "C01.e")
     inst_crc_gate(cx, "C01.f")
     inst_id_arith(cx, "C01.g")
+    # "nothing is delivered on another channel or with altered contents" rests on the datagram header
+    # round trip (a header bit that spills into a neighbouring field re-files the packet under another
+    # channel with a valid CRC): shared with C16.e / C16.f
+    from bits import check_headers
+    check_headers(cx, "C01.j", "C01.k")
 
 
 SELFTEST = [
